@@ -696,6 +696,30 @@ def shutdown_order(tree):
     return seq
 
 
+def unset_condition(tree):
+    """Shape of Runtime.unset_protocol: deregister the peer, then resolve the own future iff EVERY peer other than self
+    is deregistered.  Anything else (other iteration range, other filter, other body) -> 'unrecognised: ...'."""
+    fn = [n for n in ast.walk(tree) if isinstance(n, ast.FunctionDef) and n.name == 'unset_protocol']
+    if len(fn) != 1:
+        return 'unrecognised: %d definitions of unset_protocol' % len(fn)
+    body = [b for b in fn[0].body if not (isinstance(b, ast.Expr) and isinstance(b.value, ast.Constant))]
+    src = [ast.unparse(b) for b in body]
+    if len(body) != 2 or src[0] != 'self.parties[peer_pid].protocol = None' or not isinstance(body[1], ast.If):
+        return 'unrecognised: body ' + ' ;; '.join(src)[:200]
+    iff = body[1]
+    if iff.orelse or [ast.unparse(b) for b in iff.body] != ['self.parties[self.pid].protocol.set_result(None)']:
+        return 'unrecognised: branch ' + ast.unparse(iff)[:200]
+    t = iff.test
+    ok = (isinstance(t, ast.Call) and isinstance(t.func, ast.Name) and t.func.id == 'all' and len(t.args) == 1 and not t.keywords
+          and isinstance(t.args[0], ast.GeneratorExp) and len(t.args[0].generators) == 1)
+    if ok:
+        g = t.args[0].generators[0]
+        ok = (ast.unparse(t.args[0].elt) == 'p.protocol is None' and ast.unparse(g.target) == 'p'
+              and ast.unparse(g.iter) == 'self.parties' and not g.is_async
+              and [ast.unparse(c) for c in g.ifs] in (['p.pid != self.pid'], ['self.pid != p.pid']))
+    return 'all_peers_except_self' if ok else 'unrecognised: condition ' + ast.unparse(t)[:200]
+
+
 # --------------------------------------------------------------------------------------------
 
 def coqstr(s):
@@ -722,12 +746,13 @@ def generate(write=True, verbose=False):
     aco = an.mods['asyncoro']
     paths = pc_level_paths(aco)
     order = shutdown_order(an.mods['runtime'])
+    unset = unset_condition(an.mods['runtime'])
     info = {
         'n_pc': sum(1 for r in rows if r[1] == 'PC'), 'n_nopc': sum(1 for r in rows if r[1] == 'NoPC'),
         'flagged': {k: [list(h) for h in v] for k, v in detail.items() if v},
         'assumed_public_param_ops': {k: [list(x) for x in v] for k, v in assumed_all.items()},
         'touching_functions': len(an.touch_funcs),
-        'pc_level_paths': [list(p) for p in paths], 'shutdown_order': order,
+        'pc_level_paths': [list(p) for p in paths], 'shutdown_order': order, 'unset_condition': unset,
         'rows': [list(r) for r in rows],
     }
     if write:
@@ -742,7 +767,8 @@ def generate(write=True, verbose=False):
                   '(* exit paths of asyncoro.typed_asyncoro: (name, increments, decrements, task_created) *)',
                   'Definition pc_level_paths : list (string * nat * nat * bool) := [']
         lines.append(';\n'.join('  (%s, %d, %d, %s)' % (coqstr(n), i, d, 'true' if t else 'false') for n, i, d, t, _ in paths))
-        lines += ['].', '', 'Definition shutdown_order : list string := [%s].' % '; '.join(coqstr(x) for x in order), '']
+        lines += ['].', '', 'Definition shutdown_order : list string := [%s].' % '; '.join(coqstr(x) for x in order),
+                  'Definition unset_condition : string := %s.' % coqstr(unset), '']
         _write(os.path.join(gen, 'CoroTable.v'), '\n'.join(lines))
         _write(os.path.join(gen, 'CoroWf.v'), '\n'.join([
             '(* GENERATED obligation: every NoPC coroutine of the current source is pc-silent after its first await *)',
@@ -752,7 +778,7 @@ def generate(write=True, verbose=False):
             '(* GENERATED obligation: every exit path of typed_asyncoro is balanced; shutdown statement order *)',
             'From Coq Require Import List String Bool.', 'Require Import MPyC.Barrier MPyCGen.CoroTable.',
             'Theorem all_balanced : balanced pc_level_paths = true.', 'Proof. vm_compute. reflexivity. Qed.',
-            'Theorem shutdown_order_ok : shutdown_order_wf shutdown_order = true.',
+            'Theorem shutdown_order_ok : shutdown_order_wf shutdown_order && unset_condition_wf unset_condition = true.',
             'Proof. vm_compute. reflexivity. Qed.', '']))
     if verbose:
         print(json.dumps({k: v for k, v in info.items() if k != 'rows'}, indent=1))
